@@ -303,6 +303,11 @@ def main():
             {'name': 'config', 'path': 'spec/WnConfig.tla', 'serves_properties': [],
              'kind_free_text': 'beyond the listed properties (bin/check X01): the project index of wn.config as a '
                                'TLA+ state machine, TLC-simulated behaviours replayed on WNConfig, every call judged'},
+            {'name': 'store-concurrency', 'path': 'spec/MC_StoreConc.tla', 'serves_properties': [],
+             'kind_free_text': 'beyond the listed properties (bin/check X03): MC_Store with a reading second '
+                               'connection and a crash at every point of every transaction; the real code is '
+                               'watched by a second connection at every progress callback and killed (os._exit in a '
+                               'child process) at every progress callback'},
             {'name': 'download', 'path': 'spec/WnDownload.tla', 'serves_properties': [],
              'kind_free_text': 'beyond the listed properties (bin/check X02): wn.download() over cache, mirrors and '
                                'a scripted HTTP transport, TLC-simulated behaviours replayed, every step judged'},
